@@ -564,7 +564,9 @@ func (g *mockGun) Bind(a core.Aggregator, deps core.GunDeps) error {
 func (g *mockGun) Shoot(core.Ammo) {
 	g.i++
 	abs, s := g.cfg.sample(g.r, g.g, g.i)
-	if g.cfg.via != "engine" || g.cfg.schedEnd() {
+	if g.cfg.via == "staged" {
+		time.Sleep(time.Duration(500+g.r.Intn(2500)) * time.Microsecond) // a slow shot: others end meanwhile
+	} else if g.cfg.via != "engine" || g.cfg.schedEnd() {
 		time.Sleep(time.Duration(20+g.r.Intn(180)) * time.Microsecond) // the shot
 	}
 	g.w.Emit(map[string]interface{}{"ev": "Report", "run": g.cfg.run, "g": g.g, "i": g.i, "s": abs})
@@ -589,7 +591,9 @@ func hookSink(pool string, seq int64, ev string, n int, err error) {
 
 // engine runs end either because the ammo runs out or (every other run) because the shared RPS schedule
 // is exhausted while ammo is left (C05 shapes out-of-ammo / sched-end)
-func (cfg aggRun) schedEnd() bool { return cfg.via == "engine" && cfg.run%2 == 0 }
+func (cfg aggRun) schedEnd() bool {
+	return (cfg.via == "engine" || cfg.via == "staged") && cfg.run%2 == 0
+}
 
 func runEngine(cfg aggRun, w *vt.Writer, seed int64) {
 	w.Emit(map[string]interface{}{"ev": "Run", "run": cfg.run, "kind": cfg.kind, "ids": cfg.ids, "k": cfg.k,
@@ -602,8 +606,15 @@ func runEngine(cfg aggRun, w *vt.Writer, seed int64) {
 	}
 	var gunSeq, returned int64
 	var mu sync.Mutex
-	if cfg.via != "engine" {
+	if cfg.via != "engine" && cfg.via != "staged" {
 		total = 2000 // the run is stopped by the cancel / the provider failure, not by the end of ammo
+	}
+	// via "staged": the start-up schedule is once(k), a long pause, once(1): it has NOT finished when the first
+	// instance runs out of ammo (resp. the shared schedule runs dry) while others are in the middle of a slow
+	// shot; that must stop the instance START only, never the run context of aggregator and instances
+	startup := schedule.NewOnce(int64(cfg.k))
+	if cfg.via == "staged" {
+		startup = schedule.NewComposite(schedule.NewOnce(int64(cfg.k)), schedule.NewConst(0, 3*time.Second), schedule.NewOnce(1))
 	}
 	prov := &mockProvider{left: total}
 	newSched := func() (core.Schedule, error) { return schedule.NewUnlimited(time.Hour), nil }
@@ -628,7 +639,7 @@ func runEngine(cfg aggRun, w *vt.Writer, seed int64) {
 		},
 		RPSPerInstance:  false,
 		NewRPSSchedule:  newSched,
-		StartupSchedule: schedule.NewOnce(int64(cfg.k)),
+		StartupSchedule: startup,
 	}
 	m := engine.Metrics{Request: &monitoring.Counter{}, Response: &monitoring.Counter{},
 		InstanceStart: &monitoring.Counter{}, InstanceFinish: &monitoring.Counter{}}
@@ -699,6 +710,7 @@ func aggMain(args []string) {
 	stressRuns := fs.Int("dropstress", 4, "jsonlines runs with thousands of concurrent drops")
 	provRuns := fs.Int("provfail", 0, "engine runs whose provider fails mid-run")
 	otherRuns := fs.Int("other", 0, "direct runs of the log and discard aggregators")
+	stagedRuns := fs.Int("staged", 0, "engine runs whose staged start-up is unfinished at out-of-ammo / schedule end")
 	par := fs.Int("par", 4, "runs in flight")
 	fs.Parse(args)
 	seed := aggSeed()
@@ -710,10 +722,13 @@ func aggMain(args []string) {
 	qs := []int{1, 1, 2, 3, 4, 8, 16, 64}
 	flushes := []int{1, 1, 2, 5, 20, 100, 1000}
 	var cfgs []aggRun
-	for n := 0; n < *runs+*engRuns+*cancelRuns+*stressRuns+*provRuns+*otherRuns; n++ {
+	for n := 0; n < *runs+*engRuns+*cancelRuns+*stressRuns+*provRuns+*otherRuns+*stagedRuns; n++ {
 		cfg := aggRun{run: n + 1, via: "direct"}
-		other := n >= *runs+*engRuns+*cancelRuns+*stressRuns+*provRuns
-		if other {
+		staged := n >= *runs+*engRuns+*cancelRuns+*stressRuns+*provRuns+*otherRuns
+		other := n >= *runs+*engRuns+*cancelRuns+*stressRuns+*provRuns && !staged
+		if staged {
+			cfg.via = "staged"
+		} else if other {
 			cfg.via = "direct"
 		} else if n >= *runs+*engRuns+*cancelRuns+*stressRuns {
 			cfg.via = "provfail"
@@ -799,6 +814,18 @@ func aggMain(args []string) {
 					}
 					room -= cfg.per[g]
 				}
+			}
+		}
+		if staged {
+			// k >= 2 instances at once, ammo (resp. tokens) not a multiple of k: one instance ends while another
+			// has taken the last ammo and is shooting
+			cfg.k = 2 + r.Intn(3)
+			total := cfg.k*(1+r.Intn(3)) + 1 + r.Intn(cfg.k-1)
+			cfg.per = []int{total}
+			if cfg.kind == "phout" {
+				cfg.q = 4096
+			} else if cfg.q <= total+cfg.k+3 {
+				cfg.q = total + cfg.k + 4 // no drops: the engine's own result stays nil
 			}
 		}
 		if cfg.via == "engine" {
